@@ -363,7 +363,7 @@ func cmdCalls(args []string) {
 			nOK++
 		}
 		r["gen"], r["why"], r["compiles"], r["apiOK"], r["comperr"], r["diag"] = o.Gen, why, badComp[i] == "", badAPI[i] == "", badComp[i]+badAPI[i], firstLine(o.Why)
-		r["imports"], r["decls"] = hx.DescribeFiles(o.Files, map[string]string{mod + "/" + progDir(i, scens[i]): "user"})
+		r["imports"], r["decls"] = hx.DescribeFiles(o.Files, map[string]string{mod + "/" + progDir(i, scens[i]): "user", mod + "/wx": "wrap-pkg"})
 		obs.Write(r)
 	}
 	nExec := 0
